@@ -449,14 +449,59 @@ Definition wire_okb (expected d : list nat) (closed : bool) : bool :=
    8 a Send of a registered value returned an error (the harness never closes
      the sending side while it sends)
    9 an envelope's MsgType is not the type id of the value it carries *)
-Definition stream_clauses (cl : list icls) (d : list nat) (closed : bool) : list nat :=
+(* a stream without garbage *)
+Definition clean_clauses (cl : list icls) (d : list nat) (closed : bool) : list nat :=
   let e_all := legit_all cl in
   let e_pre := legit_pre cl in
-  if existsb is_garbage cl then clause 1 (prefixb e_pre d)
-  else if negb (existsb is_refused cl) then clause 1 (nats_eqb d e_all)
+  if negb (existsb is_refused cl) then clause 1 (nats_eqb d e_all)
   else if negb (prefixb e_pre d) then [1]
   else if wire_okb e_all d closed then []
   else if subseqb d e_all then [3] else [2].
+
+Fixpoint before_garbage (cl : list icls) : list icls :=
+  match cl with
+  | [] => []
+  | KGarbage :: _ => []
+  | c :: r => c :: before_garbage r
+  end.
+
+Fixpoint after_garbage (cl : list icls) : list icls :=
+  match cl with
+  | [] => []
+  | KGarbage :: r => r
+  | _ :: r => after_garbage r
+  end.
+
+(* the values of all legitimate messages, whatever stands between them *)
+Definition legit_values (cl : list icls) : list nat :=
+  flat_map (fun c => match c with KLegit j => [j] | _ => [] end) cl.
+
+Fixpoint splits (d : list nat) : list (list nat * list nat) :=
+  ([], d) :: match d with
+             | [] => []
+             | x :: r => map (fun p => (x :: fst p, snd p)) (splits r)
+             end.
+
+Definition nilb (l : list nat) : bool := match l with [] => true | _ => false end.
+
+(* With garbage in the stream: what was dispatched must split into a first
+   part that satisfies the whole property for the items in front of the first
+   garbage (the connection counting as closed only if nothing follows), and a
+   second part that is a subsequence of the legitimate messages sent behind
+   that garbage -- behind garbage the receiver may be out of step and lose
+   messages, but it still may not invent, duplicate or reorder any. *)
+Definition garbage_split_ok (cl : list icls) (closed : bool) (p : list nat * list nat) : bool :=
+  match clean_clauses (before_garbage cl) (fst p) (closed && nilb (snd p)) with
+  | [] => subseqb (snd p) (legit_values (after_garbage cl))
+  | _ => false
+  end.
+
+Definition stream_clauses (cl : list icls) (d : list nat) (closed : bool) : list nat :=
+  if existsb is_garbage cl then
+    if existsb (garbage_split_ok cl closed) (splits d) then []
+    else if negb (prefixb (legit_pre cl) d) then [1]
+    else if subseqb d (legit_values cl) then [3] else [2]
+  else clean_clauses cl d closed.
 
 Definition conn_delivered (evs : list cev) : list nat :=
   flat_map (fun e => match e with CMsg k _ => [k] | _ => [] end) evs.
